@@ -31,6 +31,7 @@ theorem pipe_check_known_early_ok : earlyOks pipe_check_known = [] := by decide
 theorem pipe_check_known_errors : fails pipe_check_known = []
     ∧ mapped pipe_check_known = [] := by decide
 theorem pipe_check_known_depth : depths pipe_check_known = [1, 1] := by decide
+theorem pipe_check_known_guard_inputs : guardInputs pipe_check_known = [] := by decide
 
 /-! ### `validate_pow_only (chain/src/pipe.rs)` -/
 theorem pipe_validate_pow_only_order : readOk pipe_validate_pow_only = true ∧ spine pipe_validate_pow_only =
@@ -41,6 +42,7 @@ theorem pipe_validate_pow_only_early_ok : earlyOks pipe_validate_pow_only = [["$
 theorem pipe_validate_pow_only_errors : fails pipe_validate_pow_only = [("LowEdgebits", "(!($0.pow.is_primary()) && !($0.pow.is_secondary()))"), ("InvalidPow", "($1.pow_verifier)($0).is_err()")]
     ∧ mapped pipe_validate_pow_only = [] := by decide
 theorem pipe_validate_pow_only_depth : depths pipe_validate_pow_only = [1, 1] := by decide
+theorem pipe_validate_pow_only_guard_inputs : guardInputs pipe_validate_pow_only = [] := by decide
 
 /-! ### `process_block (chain/src/pipe.rs)` -/
 theorem pipe_process_block_order : readOk pipe_process_block = true ∧ spine pipe_process_block =
@@ -50,6 +52,7 @@ theorem pipe_process_block_early_ok : earlyOks pipe_process_block = [] := by dec
 theorem pipe_process_block_errors : fails pipe_process_block = []
     ∧ mapped pipe_process_block = [] := by decide
 theorem pipe_process_block_depth : depths pipe_process_block = [0, 0, 0, 0, 0, 0, 1, 1, 1, 1, 1, 1, 0, 0, 1, 1] := by decide
+theorem pipe_process_block_guard_inputs : guardInputs pipe_process_block = ["head", "head"] := by decide
 
 /-! ### `process_block_headers (chain/src/pipe.rs)` -/
 theorem pipe_process_block_headers_order : readOk pipe_process_block_headers = true ∧ spine pipe_process_block_headers =
@@ -60,6 +63,7 @@ theorem pipe_process_block_headers_early_ok : earlyOks pipe_process_block_header
 theorem pipe_process_block_headers_errors : fails pipe_process_block_headers = []
     ∧ mapped pipe_process_block_headers = [] := by decide
 theorem pipe_process_block_headers_depth : depths pipe_process_block_headers = [0, 1, 1, 1, 1, 2, 0] := by decide
+theorem pipe_process_block_headers_guard_inputs : guardInputs pipe_process_block_headers = ["last", "header_head", "is_on_current_chain"] := by decide
 
 /-! ### `process_block_header (chain/src/pipe.rs)` -/
 theorem pipe_process_block_header_order : readOk pipe_process_block_header = true ∧ spine pipe_process_block_header =
@@ -70,6 +74,7 @@ theorem pipe_process_block_header_early_ok : earlyOks pipe_process_block_header 
 theorem pipe_process_block_header_errors : fails pipe_process_block_header = []
     ∧ mapped pipe_process_block_header = [] := by decide
 theorem pipe_process_block_header_depth : depths pipe_process_block_header = [0, 0, 0, 0, 1, 1, 1, 0, 0, 1] := by decide
+theorem pipe_process_block_header_guard_inputs : guardInputs pipe_process_block_header = ["head", "header_head"] := by decide
 
 /-! ### `check_known_head (chain/src/pipe.rs)` -/
 theorem pipe_check_known_head_order : readOk pipe_check_known_head = true ∧ spine pipe_check_known_head =
@@ -79,6 +84,7 @@ theorem pipe_check_known_head_early_ok : earlyOks pipe_check_known_head = [] := 
 theorem pipe_check_known_head_errors : fails pipe_check_known_head = [("Unfit", "(($2 == $1.last_block_h) || ($2 == $1.prev_block_h))")]
     ∧ mapped pipe_check_known_head = [] := by decide
 theorem pipe_check_known_head_depth : depths pipe_check_known_head = [1] := by decide
+theorem pipe_check_known_head_guard_inputs : guardInputs pipe_check_known_head = ["hash"] := by decide
 
 /-! ### `check_known_store (chain/src/pipe.rs)` -/
 theorem pipe_check_known_store_order : readOk pipe_check_known_store = true ∧ spine pipe_check_known_store =
@@ -88,6 +94,7 @@ theorem pipe_check_known_store_early_ok : earlyOks pipe_check_known_store = [] :
 theorem pipe_check_known_store_errors : fails pipe_check_known_store = [("OldBlock", "($0.height < $1.height.saturating_sub(50))"), ("Unfit", "!(($0.height < $1.height.saturating_sub(50)))"), ("StoreErr", "$2.batch.block_exists(&$0.hash()) ~ Err(_)")]
     ∧ mapped pipe_check_known_store = [] := by decide
 theorem pipe_check_known_store_depth : depths pipe_check_known_store = [2, 2, 1] := by decide
+theorem pipe_check_known_store_guard_inputs : guardInputs pipe_check_known_store = [] := by decide
 
 /-! ### `prev_header_store (chain/src/pipe.rs)` -/
 theorem pipe_prev_header_store_order : readOk pipe_prev_header_store = true ∧ spine pipe_prev_header_store =
@@ -97,6 +104,7 @@ theorem pipe_prev_header_store_early_ok : earlyOks pipe_prev_header_store = [] :
 theorem pipe_prev_header_store_errors : fails pipe_prev_header_store = []
     ∧ mapped pipe_prev_header_store = [] := by decide
 theorem pipe_prev_header_store_depth : depths pipe_prev_header_store = [0] := by decide
+theorem pipe_prev_header_store_guard_inputs : guardInputs pipe_prev_header_store = [] := by decide
 
 /-! ### `validate_header_ctx (chain/src/pipe.rs)` -/
 theorem pipe_validate_header_ctx_order : readOk pipe_validate_header_ctx = true ∧ spine pipe_validate_header_ctx =
@@ -106,6 +114,7 @@ theorem pipe_validate_header_ctx_early_ok : earlyOks pipe_validate_header_ctx = 
 theorem pipe_validate_header_ctx_errors : fails pipe_validate_header_ctx = []
     ∧ mapped pipe_validate_header_ctx = [] := by decide
 theorem pipe_validate_header_ctx_depth : depths pipe_validate_header_ctx = [0] := by decide
+theorem pipe_validate_header_ctx_guard_inputs : guardInputs pipe_validate_header_ctx = [] := by decide
 
 /-! ### `validate_header_denylist (chain/src/pipe.rs)` -/
 theorem pipe_validate_header_denylist_order : readOk pipe_validate_header_denylist = true ∧ spine pipe_validate_header_denylist =
@@ -116,6 +125,7 @@ theorem pipe_validate_header_denylist_early_ok : earlyOks pipe_validate_header_d
 theorem pipe_validate_header_denylist_errors : fails pipe_validate_header_denylist = [("Block.Other", "$1.contains(&$0.hash())")]
     ∧ mapped pipe_validate_header_denylist = [] := by decide
 theorem pipe_validate_header_denylist_depth : depths pipe_validate_header_denylist = [1] := by decide
+theorem pipe_validate_header_denylist_guard_inputs : guardInputs pipe_validate_header_denylist = [] := by decide
 
 /-! ### `validate_header (chain/src/pipe.rs)` -/
 theorem pipe_validate_header_order : readOk pipe_validate_header = true ∧ spine pipe_validate_header =
@@ -125,6 +135,7 @@ theorem pipe_validate_header_early_ok : earlyOks pipe_validate_header = [] := by
 theorem pipe_validate_header_errors : fails pipe_validate_header = [("InvalidBlockHeight", "($0.height != ($2.height + 1))"), ("InvalidBlockVersion", "!(consensus::valid_header_version($0.height, $0.version))"), ("InvalidBlockTime", "($0.timestamp <= $2.timestamp)"), ("InvalidMMRSize", "(($3 == 0) || ($4 == 0))"), ("Block.TooHeavy", "($5 > global::max_block_weight())"), ("DifficultyTooLow", "($0.total_difficulty() <= $2.total_difficulty())"), ("DifficultyTooLow", "($0.pow.to_difficulty($0.height) < $6)"), ("WrongTotalDifficulty", "($6 != $9.difficulty)"), ("InvalidScaling", "(($0.version < HeaderVersion(5)) && ($0.pow.secondary_scaling != $9.secondary_scaling))")]
     ∧ mapped pipe_validate_header = [] := by decide
 theorem pipe_validate_header_depth : depths pipe_validate_header = [0, 0, 1, 1, 1, 1, 1, 1, 2, 2, 1, 2, 2] := by decide
+theorem pipe_validate_header_guard_inputs : guardInputs pipe_validate_header = ["prev_header_store", "saturating_sub", "saturating_sub", "weight_by_iok", "<bin>", "child", "from_batch", "next_difficulty"] := by decide
 
 /-! ### `validate_block (chain/src/pipe.rs)` -/
 theorem pipe_validate_block_order : readOk pipe_validate_block = true ∧ spine pipe_validate_block =
@@ -134,6 +145,7 @@ theorem pipe_validate_block_early_ok : earlyOks pipe_validate_block = [] := by d
 theorem pipe_validate_block_errors : fails pipe_validate_block = []
     ∧ mapped pipe_validate_block = [] := by decide
 theorem pipe_validate_block_depth : depths pipe_validate_block = [0, 0] := by decide
+theorem pipe_validate_block_guard_inputs : guardInputs pipe_validate_block = [] := by decide
 
 /-! ### `verify_coinbase_maturity (chain/src/pipe.rs)` -/
 theorem pipe_verify_coinbase_maturity_order : readOk pipe_verify_coinbase_maturity = true ∧ spine pipe_verify_coinbase_maturity =
@@ -143,6 +155,7 @@ theorem pipe_verify_coinbase_maturity_early_ok : earlyOks pipe_verify_coinbase_m
 theorem pipe_verify_coinbase_maturity_errors : fails pipe_verify_coinbase_maturity = []
     ∧ mapped pipe_verify_coinbase_maturity = [] := by decide
 theorem pipe_verify_coinbase_maturity_depth : depths pipe_verify_coinbase_maturity = [0] := by decide
+theorem pipe_verify_coinbase_maturity_guard_inputs : guardInputs pipe_verify_coinbase_maturity = [] := by decide
 
 /-! ### `verify_block_sums (chain/src/pipe.rs)` -/
 theorem pipe_verify_block_sums_order : readOk pipe_verify_block_sums = true ∧ spine pipe_verify_block_sums =
@@ -152,6 +165,7 @@ theorem pipe_verify_block_sums_early_ok : earlyOks pipe_verify_block_sums = [] :
 theorem pipe_verify_block_sums_errors : fails pipe_verify_block_sums = []
     ∧ mapped pipe_verify_block_sums = [] := by decide
 theorem pipe_verify_block_sums_depth : depths pipe_verify_block_sums = [0, 0, 0] := by decide
+theorem pipe_verify_block_sums_guard_inputs : guardInputs pipe_verify_block_sums = [] := by decide
 
 /-! ### `apply_block_to_txhashset (chain/src/pipe.rs)` -/
 theorem pipe_apply_block_to_txhashset_order : readOk pipe_apply_block_to_txhashset = true ∧ spine pipe_apply_block_to_txhashset =
@@ -161,6 +175,7 @@ theorem pipe_apply_block_to_txhashset_early_ok : earlyOks pipe_apply_block_to_tx
 theorem pipe_apply_block_to_txhashset_errors : fails pipe_apply_block_to_txhashset = []
     ∧ mapped pipe_apply_block_to_txhashset = [] := by decide
 theorem pipe_apply_block_to_txhashset_depth : depths pipe_apply_block_to_txhashset = [0, 0, 0] := by decide
+theorem pipe_apply_block_to_txhashset_guard_inputs : guardInputs pipe_apply_block_to_txhashset = [] := by decide
 
 /-! ### `add_block (chain/src/pipe.rs)` -/
 theorem pipe_add_block_order : readOk pipe_add_block = true ∧ spine pipe_add_block =
@@ -170,6 +185,7 @@ theorem pipe_add_block_early_ok : earlyOks pipe_add_block = [] := by decide
 theorem pipe_add_block_errors : fails pipe_add_block = []
     ∧ mapped pipe_add_block = [] := by decide
 theorem pipe_add_block_depth : depths pipe_add_block = [0] := by decide
+theorem pipe_add_block_guard_inputs : guardInputs pipe_add_block = [] := by decide
 
 /-! ### `update_body_tail (chain/src/pipe.rs)` -/
 theorem pipe_update_body_tail_order : readOk pipe_update_body_tail = true ∧ spine pipe_update_body_tail =
@@ -179,6 +195,7 @@ theorem pipe_update_body_tail_early_ok : earlyOks pipe_update_body_tail = [] := 
 theorem pipe_update_body_tail_errors : fails pipe_update_body_tail = []
     ∧ mapped pipe_update_body_tail = [("save_body_tail", "StoreErr")] := by decide
 theorem pipe_update_body_tail_depth : depths pipe_update_body_tail = [1, 0] := by decide
+theorem pipe_update_body_tail_guard_inputs : guardInputs pipe_update_body_tail = [] := by decide
 
 /-! ### `add_block_header (chain/src/pipe.rs)` -/
 theorem pipe_add_block_header_order : readOk pipe_add_block_header = true ∧ spine pipe_add_block_header =
@@ -188,6 +205,7 @@ theorem pipe_add_block_header_early_ok : earlyOks pipe_add_block_header = [] := 
 theorem pipe_add_block_header_errors : fails pipe_add_block_header = []
     ∧ mapped pipe_add_block_header = [("save_block_header", "StoreErr")] := by decide
 theorem pipe_add_block_header_depth : depths pipe_add_block_header = [1, 0] := by decide
+theorem pipe_add_block_header_guard_inputs : guardInputs pipe_add_block_header = [] := by decide
 
 /-! ### `update_header_head (chain/src/pipe.rs)` -/
 theorem pipe_update_header_head_order : readOk pipe_update_header_head = true ∧ spine pipe_update_header_head =
@@ -197,6 +215,7 @@ theorem pipe_update_header_head_early_ok : earlyOks pipe_update_header_head = []
 theorem pipe_update_header_head_errors : fails pipe_update_header_head = []
     ∧ mapped pipe_update_header_head = [("save_header_head", "StoreErr")] := by decide
 theorem pipe_update_header_head_depth : depths pipe_update_header_head = [1, 0] := by decide
+theorem pipe_update_header_head_guard_inputs : guardInputs pipe_update_header_head = [] := by decide
 
 /-! ### `update_head (chain/src/pipe.rs)` -/
 theorem pipe_update_head_order : readOk pipe_update_head = true ∧ spine pipe_update_head =
@@ -206,6 +225,7 @@ theorem pipe_update_head_early_ok : earlyOks pipe_update_head = [] := by decide
 theorem pipe_update_head_errors : fails pipe_update_head = []
     ∧ mapped pipe_update_head = [("save_body_head", "StoreErr")] := by decide
 theorem pipe_update_head_depth : depths pipe_update_head = [1, 0] := by decide
+theorem pipe_update_head_guard_inputs : guardInputs pipe_update_head = [] := by decide
 
 /-! ### `has_more_work (chain/src/pipe.rs)` -/
 theorem pipe_has_more_work_order : readOk pipe_has_more_work = true ∧ spine pipe_has_more_work =
@@ -215,6 +235,7 @@ theorem pipe_has_more_work_early_ok : earlyOks pipe_has_more_work = [] := by dec
 theorem pipe_has_more_work_errors : fails pipe_has_more_work = []
     ∧ mapped pipe_has_more_work = [] := by decide
 theorem pipe_has_more_work_depth : depths pipe_has_more_work = [0] := by decide
+theorem pipe_has_more_work_guard_inputs : guardInputs pipe_has_more_work = [] := by decide
 
 /-! ### `rewind_and_apply_header_fork (chain/src/pipe.rs)` -/
 theorem pipe_rewind_and_apply_header_fork_order : readOk pipe_rewind_and_apply_header_fork = true ∧ spine pipe_rewind_and_apply_header_fork =
@@ -224,6 +245,7 @@ theorem pipe_rewind_and_apply_header_fork_early_ok : earlyOks pipe_rewind_and_ap
 theorem pipe_rewind_and_apply_header_fork_errors : fails pipe_rewind_and_apply_header_fork = []
     ∧ mapped pipe_rewind_and_apply_header_fork = [("get_block_header", "StoreErr")] := by decide
 theorem pipe_rewind_and_apply_header_fork_depth : depths pipe_rewind_and_apply_header_fork = [1, 1, 0, 2, 1, 1, 1, 1] := by decide
+theorem pipe_rewind_and_apply_header_fork_guard_inputs : guardInputs pipe_rewind_and_apply_header_fork = ["<vec>", "header", "get_previous_header"] := by decide
 
 /-! ### `rewind_and_apply_fork (chain/src/pipe.rs)` -/
 theorem pipe_rewind_and_apply_fork_order : readOk pipe_rewind_and_apply_fork = true ∧ spine pipe_rewind_and_apply_fork =
@@ -233,6 +255,7 @@ theorem pipe_rewind_and_apply_fork_early_ok : earlyOks pipe_rewind_and_apply_for
 theorem pipe_rewind_and_apply_fork_errors : fails pipe_rewind_and_apply_fork = []
     ∧ mapped pipe_rewind_and_apply_fork = [("get_block", "StoreErr")] := by decide
 theorem pipe_rewind_and_apply_fork_depth : depths pipe_rewind_and_apply_fork = [0, 0, 1, 1, 0, 1, 2, 1, 1, 1, 1, 1] := by decide
+theorem pipe_rewind_and_apply_fork_guard_inputs : guardInputs pipe_rewind_and_apply_fork = ["header_extension", "head_header", "get_previous_header", "current", "<vec>", "header", "get_previous_header"] := by decide
 
 /-! ### `validate_utxo (chain/src/pipe.rs)` -/
 theorem pipe_validate_utxo_order : readOk pipe_validate_utxo = true ∧ spine pipe_validate_utxo =
@@ -242,6 +265,7 @@ theorem pipe_validate_utxo_early_ok : earlyOks pipe_validate_utxo = [] := by dec
 theorem pipe_validate_utxo_errors : fails pipe_validate_utxo = []
     ∧ mapped pipe_validate_utxo = [] := by decide
 theorem pipe_validate_utxo_depth : depths pipe_validate_utxo = [0] := by decide
+theorem pipe_validate_utxo_guard_inputs : guardInputs pipe_validate_utxo = [] := by decide
 
 /-! ### `UTXOView::validate_block (chain/src/txhashset/utxo_view.rs)` -/
 theorem utxo_validate_block_order : readOk utxo_validate_block = true ∧ spine utxo_validate_block =
@@ -251,6 +275,7 @@ theorem utxo_validate_block_early_ok : earlyOks utxo_validate_block = [] := by d
 theorem utxo_validate_block_errors : fails utxo_validate_block = []
     ∧ mapped utxo_validate_block = [] := by decide
 theorem utxo_validate_block_depth : depths utxo_validate_block = [1, 0] := by decide
+theorem utxo_validate_block_guard_inputs : guardInputs utxo_validate_block = [] := by decide
 
 /-! ### `UTXOView::validate_tx (chain/src/txhashset/utxo_view.rs)` -/
 theorem utxo_validate_tx_order : readOk utxo_validate_tx = true ∧ spine utxo_validate_tx =
@@ -260,6 +285,7 @@ theorem utxo_validate_tx_early_ok : earlyOks utxo_validate_tx = [] := by decide
 theorem utxo_validate_tx_errors : fails utxo_validate_tx = []
     ∧ mapped utxo_validate_tx = [] := by decide
 theorem utxo_validate_tx_depth : depths utxo_validate_tx = [1, 0] := by decide
+theorem utxo_validate_tx_guard_inputs : guardInputs utxo_validate_tx = [] := by decide
 
 /-! ### `UTXOView::validate_input (chain/src/txhashset/utxo_view.rs)` -/
 theorem utxo_validate_input_order : readOk utxo_validate_input = true ∧ spine utxo_validate_input =
@@ -270,6 +296,7 @@ theorem utxo_validate_input_early_ok : earlyOks utxo_validate_input = [["$2 ~ So
 theorem utxo_validate_input_errors : fails utxo_validate_input = [("Other", "!(($4.commitment() == $0))"), ("AlreadySpent", "")]
     ∧ mapped utxo_validate_input = [] := by decide
 theorem utxo_validate_input_depth : depths utxo_validate_input = [0, 3, 0] := by decide
+theorem utxo_validate_input_guard_inputs : guardInputs utxo_validate_input = ["get_output_pos_height"] := by decide
 
 /-! ### `UTXOView::validate_inputs (chain/src/txhashset/utxo_view.rs)` -/
 theorem utxo_validate_inputs_order : readOk utxo_validate_inputs = true ∧ spine utxo_validate_inputs =
@@ -279,6 +306,7 @@ theorem utxo_validate_inputs_early_ok : earlyOks utxo_validate_inputs = [] := by
 theorem utxo_validate_inputs_errors : fails utxo_validate_inputs = [("Other", "!(($9 == $8.into()))")]
     ∧ mapped utxo_validate_inputs = [] := by decide
 theorem utxo_validate_inputs_depth : depths utxo_validate_inputs = [2, 1, 4, 2, 1] := by decide
+theorem utxo_validate_inputs_guard_inputs : guardInputs utxo_validate_inputs = [] := by decide
 
 /-! ### `UTXOView::validate_output (chain/src/txhashset/utxo_view.rs)` -/
 theorem utxo_validate_output_order : readOk utxo_validate_output = true ∧ spine utxo_validate_output =
@@ -288,6 +316,7 @@ theorem utxo_validate_output_early_ok : earlyOks utxo_validate_output = [] := by
 theorem utxo_validate_output_errors : fails utxo_validate_output = [("DuplicateCommitment", "($3.commitment() == $0.commitment())")]
     ∧ mapped utxo_validate_output = [] := by decide
 theorem utxo_validate_output_depth : depths utxo_validate_output = [3] := by decide
+theorem utxo_validate_output_guard_inputs : guardInputs utxo_validate_output = [] := by decide
 
 /-! ### `UTXOView::verify_coinbase_maturity (chain/src/txhashset/utxo_view.rs)` -/
 theorem utxo_verify_coinbase_maturity_order : readOk utxo_verify_coinbase_maturity = true ∧ spine utxo_verify_coinbase_maturity =
@@ -297,6 +326,7 @@ theorem utxo_verify_coinbase_maturity_early_ok : earlyOks utxo_verify_coinbase_m
 theorem utxo_verify_coinbase_maturity_errors : fails utxo_verify_coinbase_maturity = [("ImmatureCoinbase", "($1 < global::coinbase_maturity())"), ("ImmatureCoinbase", "($9 > $12)")]
     ∧ mapped utxo_verify_coinbase_maturity = [] := by decide
 theorem utxo_verify_coinbase_maturity_depth : depths utxo_verify_coinbase_maturity = [1, 0, 2, 2, 2, 1, 2] := by decide
+theorem utxo_verify_coinbase_maturity_guard_inputs : guardInputs utxo_verify_coinbase_maturity = ["inputs", "inputs", "max", "saturating_sub", "get_header_by_height", "output_mmr_size"] := by decide
 
 /-! ### `Extension::apply_block (chain/src/txhashset/txhashset.rs)` -/
 theorem ext_apply_block_order : readOk ext_apply_block = true ∧ spine ext_apply_block =
@@ -306,6 +336,7 @@ theorem ext_apply_block_early_ok : earlyOks ext_apply_block = [] := by decide
 theorem ext_apply_block_errors : fails ext_apply_block = []
     ∧ mapped ext_apply_block = [] := by decide
 theorem ext_apply_block_depth : depths ext_apply_block = [1, 1, 0, 1, 1, 1, 0, 0, 0] := by decide
+theorem ext_apply_block_guard_inputs : guardInputs ext_apply_block = ["validate_inputs"] := by decide
 
 /-! ### `Extension::apply_input (chain/src/txhashset/txhashset.rs)` -/
 theorem ext_apply_input_order : readOk ext_apply_input = true ∧ spine ext_apply_input =
@@ -315,6 +346,7 @@ theorem ext_apply_input_early_ok : earlyOks ext_apply_input = [] := by decide
 theorem ext_apply_input_errors : fails ext_apply_input = [("AlreadySpent", "self.output_pmmr.prune(($1.pos - 1)) ~ Ok(_)"), ("TxHashSetErr", "self.output_pmmr.prune(($1.pos - 1)) ~ Err(_)")]
     ∧ mapped ext_apply_input = [("prune", "TxHashSetErr")] := by decide
 theorem ext_apply_input_depth : depths ext_apply_input = [1, 1, 1] := by decide
+theorem ext_apply_input_guard_inputs : guardInputs ext_apply_input = [] := by decide
 
 /-! ### `Extension::apply_output (chain/src/txhashset/txhashset.rs)` -/
 theorem ext_apply_output_order : readOk ext_apply_output = true ∧ spine ext_apply_output =
@@ -324,6 +356,7 @@ theorem ext_apply_output_early_ok : earlyOks ext_apply_output = [] := by decide
 theorem ext_apply_output_errors : fails ext_apply_output = [("DuplicateCommitment", "($4.commitment() == $2)"), ("Other", "(self.output_pmmr.unpruned_size() != self.rproof_pmmr.unpruned_size())"), ("Other", "($5 != $6)")]
     ∧ mapped ext_apply_output = [("push", "TxHashSetErr"), ("push", "TxHashSetErr")] := by decide
 theorem ext_apply_output_depth : depths ext_apply_output = [3, 0, 0, 1, 1] := by decide
+theorem ext_apply_output_guard_inputs : guardInputs ext_apply_output = ["commitment", "push", "push"] := by decide
 
 /-! ### `Extension::apply_kernel (chain/src/txhashset/txhashset.rs)` -/
 theorem ext_apply_kernel_order : readOk ext_apply_kernel = true ∧ spine ext_apply_kernel =
@@ -333,6 +366,7 @@ theorem ext_apply_kernel_early_ok : earlyOks ext_apply_kernel = [] := by decide
 theorem ext_apply_kernel_errors : fails ext_apply_kernel = []
     ∧ mapped ext_apply_kernel = [("push", "TxHashSetErr")] := by decide
 theorem ext_apply_kernel_depth : depths ext_apply_kernel = [0] := by decide
+theorem ext_apply_kernel_guard_inputs : guardInputs ext_apply_kernel = [] := by decide
 
 /-! ### `Extension::rewind (chain/src/txhashset/txhashset.rs)` -/
 theorem ext_rewind_order : readOk ext_rewind = true ∧ spine ext_rewind =
@@ -342,6 +376,7 @@ theorem ext_rewind_early_ok : earlyOks ext_rewind = [] := by decide
 theorem ext_rewind_errors : fails ext_rewind = []
     ∧ mapped ext_rewind = [] := by decide
 theorem ext_rewind_depth : depths ext_rewind = [0, 1, 1, 2, 2, 2, 1] := by decide
+theorem ext_rewind_guard_inputs : guardInputs ext_rewind = ["get_block_header", "head_header", "get_previous_header"] := by decide
 
 /-! ### `Extension::rewind_single_block (chain/src/txhashset/txhashset.rs)` -/
 theorem ext_rewind_single_block_order : readOk ext_rewind_single_block = true ∧ spine ext_rewind_single_block =
@@ -351,6 +386,7 @@ theorem ext_rewind_single_block_early_ok : earlyOks ext_rewind_single_block = []
 theorem ext_rewind_single_block_errors : fails ext_rewind_single_block = []
     ∧ mapped ext_rewind_single_block = [] := by decide
 theorem ext_rewind_single_block_depth : depths ext_rewind_single_block = [0, 2, 1, 2, 1, 1, 1, 3, 3] := by decide
+theorem ext_rewind_single_block_guard_inputs : guardInputs ext_rewind_single_block = ["header", "get_spent_index"] := by decide
 
 /-! ### `Extension::validate_roots (chain/src/txhashset/txhashset.rs)` -/
 theorem ext_validate_roots_order : readOk ext_validate_roots = true ∧ spine ext_validate_roots =
@@ -361,6 +397,7 @@ theorem ext_validate_roots_early_ok : earlyOks ext_validate_roots = [["($0.heigh
 theorem ext_validate_roots_errors : fails ext_validate_roots = []
     ∧ mapped ext_validate_roots = [] := by decide
 theorem ext_validate_roots_depth : depths ext_validate_roots = [0, 0] := by decide
+theorem ext_validate_roots_guard_inputs : guardInputs ext_validate_roots = [] := by decide
 
 /-! ### `Extension::validate_sizes (chain/src/txhashset/txhashset.rs)` -/
 theorem ext_validate_sizes_order : readOk ext_validate_sizes = true ∧ spine ext_validate_sizes =
@@ -371,6 +408,7 @@ theorem ext_validate_sizes_early_ok : earlyOks ext_validate_sizes = [["($0.heigh
 theorem ext_validate_sizes_errors : fails ext_validate_sizes = [("InvalidMMRSize", "(($0.output_mmr_size, $0.output_mmr_size, $0.kernel_mmr_size) != self.sizes())")]
     ∧ mapped ext_validate_sizes = [] := by decide
 theorem ext_validate_sizes_depth : depths ext_validate_sizes = [1] := by decide
+theorem ext_validate_sizes_guard_inputs : guardInputs ext_validate_sizes = [] := by decide
 
 /-! ### `Extension::validate_mmrs (chain/src/txhashset/txhashset.rs)` -/
 theorem ext_validate_mmrs_order : readOk ext_validate_mmrs = true ∧ spine ext_validate_mmrs =
@@ -380,6 +418,7 @@ theorem ext_validate_mmrs_early_ok : earlyOks ext_validate_mmrs = [] := by decid
 theorem ext_validate_mmrs_errors : fails ext_validate_mmrs = [("InvalidTxHashSet", "self.output_pmmr.validate() ~ Err(_)"), ("InvalidTxHashSet", "self.rproof_pmmr.validate() ~ Err(_)"), ("InvalidTxHashSet", "self.kernel_pmmr.validate() ~ Err(_)")]
     ∧ mapped ext_validate_mmrs = [] := by decide
 theorem ext_validate_mmrs_depth : depths ext_validate_mmrs = [1, 1, 1] := by decide
+theorem ext_validate_mmrs_guard_inputs : guardInputs ext_validate_mmrs = [] := by decide
 
 /-! ### `Extension::validate (chain/src/txhashset/txhashset.rs)` -/
 theorem ext_validate_order : readOk ext_validate = true ∧ spine ext_validate =
@@ -390,6 +429,7 @@ theorem ext_validate_early_ok : earlyOks ext_validate = [["(self.head.height == 
 theorem ext_validate_errors : fails ext_validate = [("Stopped", "$10.is_stopped()"), ("Stopped", "$11.is_stopped()")]
     ∧ mapped ext_validate = [] := by decide
 theorem ext_validate_depth : depths ext_validate = [0, 0, 0, 0, 1, 3, 1, 3] := by decide
+theorem ext_validate_guard_inputs : guardInputs ext_validate = [] := by decide
 
 /-! ### `Extension::validate_kernel_sums (chain/src/txhashset/txhashset.rs)` -/
 theorem ext_validate_kernel_sums_order : readOk ext_validate_kernel_sums = true ∧ spine ext_validate_kernel_sums =
@@ -399,6 +439,7 @@ theorem ext_validate_kernel_sums_early_ok : earlyOks ext_validate_kernel_sums = 
 theorem ext_validate_kernel_sums_errors : fails ext_validate_kernel_sums = []
     ∧ mapped ext_validate_kernel_sums = [] := by decide
 theorem ext_validate_kernel_sums_depth : depths ext_validate_kernel_sums = [0] := by decide
+theorem ext_validate_kernel_sums_guard_inputs : guardInputs ext_validate_kernel_sums = [] := by decide
 
 /-! ### `HeaderExtension::apply_header (chain/src/txhashset/txhashset.rs)` -/
 theorem hext_apply_header_order : readOk hext_apply_header = true ∧ spine hext_apply_header =
@@ -408,6 +449,7 @@ theorem hext_apply_header_early_ok : earlyOks hext_apply_header = [] := by decid
 theorem hext_apply_header_errors : fails hext_apply_header = []
     ∧ mapped hext_apply_header = [("push", "TxHashSetErr")] := by decide
 theorem hext_apply_header_depth : depths hext_apply_header = [0] := by decide
+theorem hext_apply_header_guard_inputs : guardInputs hext_apply_header = [] := by decide
 
 /-! ### `HeaderExtension::rewind (chain/src/txhashset/txhashset.rs)` -/
 theorem hext_rewind_order : readOk hext_rewind = true ∧ spine hext_rewind =
@@ -417,6 +459,7 @@ theorem hext_rewind_early_ok : earlyOks hext_rewind = [] := by decide
 theorem hext_rewind_errors : fails hext_rewind = []
     ∧ mapped hext_rewind = [("rewind", "TxHashSetErr")] := by decide
 theorem hext_rewind_depth : depths hext_rewind = [0] := by decide
+theorem hext_rewind_guard_inputs : guardInputs hext_rewind = [] := by decide
 
 /-! ### `HeaderExtension::validate_root (chain/src/txhashset/txhashset.rs)` -/
 theorem hext_validate_root_order : readOk hext_validate_root = true ∧ spine hext_validate_root =
@@ -427,5 +470,6 @@ theorem hext_validate_root_early_ok : earlyOks hext_validate_root = [["($0.heigh
 theorem hext_validate_root_errors : fails hext_validate_root = [("InvalidRoot", "(self.root()? != $0.prev_root)")]
     ∧ mapped hext_validate_root = [] := by decide
 theorem hext_validate_root_depth : depths hext_validate_root = [0, 1] := by decide
+theorem hext_validate_root_guard_inputs : guardInputs hext_validate_root = [] := by decide
 
 end GV.Props.XlateShapeChain
